@@ -34,6 +34,8 @@
 #include <csignal>
 #include <cerrno>
 #include <sys/time.h>
+#include <dlfcn.h>
+#include <ctime>
 
 using namespace Parma_Polyhedra_Library;
 namespace IW = Parma_Polyhedra_Library::Implementation::Watchdog;
@@ -45,15 +47,17 @@ typedef long long ll;
 typedef unsigned long long ull;
 
 // ---------- read-only white-box access (explicit instantiation ignores access) ----------
-WDPL& wd_pending(); volatile bool& wd_in_cs(); volatile bool& wd_running(); bool& wd_expired(Watchdog&);
+typedef Parma_Polyhedra_Library::Implementation::EList<IW::Pending_Element<WTime> > WDEL;
+WDPL& wd_pending(); volatile bool& wd_in_cs(); volatile bool& wd_running(); bool& wd_expired(Watchdog&); WDEL& wd_free_list();
 WWPL& ww_pending(); bool& ww_expired(WWatcher&);
-template <auto P, auto CS, auto RUN, auto EXP> struct Rob_wd {
+template <auto P, auto CS, auto RUN, auto EXP, auto FL> struct Rob_wd {
+  friend WDEL& wd_free_list() { return (*P).*FL; }
   friend WDPL& wd_pending() { return *P; }
   friend volatile bool& wd_in_cs() { return *CS; }
   friend volatile bool& wd_running() { return *RUN; }
   friend bool& wd_expired(Watchdog& w) { return w.*EXP; }
 };
-template struct Rob_wd<&Watchdog::pending, &Watchdog::in_critical_section, &Watchdog::alarm_clock_running, &Watchdog::expired>;
+template struct Rob_wd<&Watchdog::pending, &Watchdog::in_critical_section, &Watchdog::alarm_clock_running, &Watchdog::expired, &WDPL::free_list>;
 template <auto I, auto EXP> struct Rob_ww {
   friend WWPL& ww_pending() { return I->pending; }
   friend bool& ww_expired(WWatcher& w) { return w.*EXP; }
@@ -118,17 +122,21 @@ struct WdRun {
   std::string vkey, vdetail; bool list_suspect;
   std::string log;
   Watchdog* wd[MAXW]; bool flagkind[MAXW];
+  // second, independent account of elapsed timer time per watchdog (witness re-validation)
+  ll since_enter[MAXW], since_exit[MAXW]; bool run_enter[MAXW], run_exit[MAXW];
   Model M;
 };
 static WdRun R;
 static const Throwable* volatile wd_holder[MAXW];
 static WFlag wd_flag[MAXW];
-static std::vector<Watchdog*> graveyard;   // never deleted: objects whose list links are known to be wrong
+static std::vector<Watchdog*>& graveyard = *new std::vector<Watchdog*>;   // never deleted: objects whose list links are known to be wrong
 
+static void tick(ll dt) { R.now += dt; for (int i = 0; i < MAXW; ++i) { if (R.run_enter[i]) R.since_enter[i] += dt; if (R.run_exit[i]) R.since_exit[i] += dt; } }
 static void ev(const std::string& s) { R.log += s; R.log += ' '; if (hx::opt().verbose) { fprintf(stderr, "   [t=%lld] %s\n", R.now, s.c_str()); fflush(stderr); } }
 static void wd_viol(const std::string& what, const std::string& detail) {
   if (!R.vkey.empty()) return;
-  R.vkey = "C19.wd." + what + (R.M.ndef > 0 ? ":delivered-in-critical-section" : "");
+  if (what.compare(0, 12, "harness_bug.") == 0) R.vkey = "harness.bug.wd." + what.substr(12);
+  else R.vkey = "C19.wd." + what + (R.M.ndef > 0 ? ":delivered-in-critical-section" : "");
   R.vdetail = detail;
   ev("VIOLATION " + R.vkey);
 }
@@ -140,7 +148,9 @@ static void on_fire(int i) {
   ++R.nfired; hx::checked(4);
   ev("fire" + S(i));
   std::string why; const char* c = R.M.fire(i, R.now, why);
-  if (*c) wd_viol(c, why);
+  if (!*c) return;
+  if (std::string(c) == "early" && !(R.since_enter[i] < R.M.w[i].delay)) { wd_viol("harness_bug.early_witness", why + " but " + S(R.since_enter[i]) + " us were accounted since the constructor was entered"); return; }
+  wd_viol(c, why);
 }
 template <int I> static void wd_fn() { on_fire(I); }
 static void (*const wd_fns[MAXW])() = { wd_fn<0>, wd_fn<1>, wd_fn<2>, wd_fn<3>, wd_fn<4>, wd_fn<5>, wd_fn<6>, wd_fn<7> };
@@ -157,22 +167,25 @@ static void wd_poll_flags() {
 
 static void unblock_sigprof() { sigset_t s; sigemptyset(&s); sigaddset(&s, SIGPROF); sigprocmask(SIG_UNBLOCK, &s, 0); }
 
+// raise() is declared noexcept, so a call to it gets no landing pad; the library's handler can
+// throw (set_timer: "PPL internal error", failing syscalls), and the engine wants to catch that.
+static int (*volatile deliver_signal)(int) = raise;
 // Move virtual time; every expiry is delivered through the real signal path.
 static void advance(ll us, bool incall) {
   if (incall) R.M.incall += us;
   while (R.armed_until >= 0 && R.armed_until <= R.now + us) {
-    us -= R.armed_until - R.now; R.now = R.armed_until;
+    us -= R.armed_until - R.now; tick(R.armed_until - R.now);
     R.armed_until = R.interval > 0 ? R.now + R.interval : -1;
     bool in_cs = wd_in_cs();
     if (in_cs) { ++R.M.ndef; hx::count("wd.deliveries_in_critical_section"); }
     ++R.nsig; ev(std::string("SIGPROF") + (in_cs ? "(in-cs)" : ""));
     ++R.delivering;
-    try { raise(SIGPROF); }
+    try { deliver_signal(SIGPROF); }
     catch (const std::exception& e) { unblock_sigprof(); wd_viol("exception.signal_handler", std::string(typeid(e).name()) + ": " + e.what()); }
     --R.delivering;
     wd_poll_flags();
   }
-  R.now += us;
+  tick(us);
 }
 
 // A statement boundary inside the library's bookkeeping: entry/exit of the interposed
@@ -199,7 +212,14 @@ static void boundary(const char* what, const char* pos) {
 static void hook_fn(const char* id) { boundary("point:", id); }
 
 static void bad_args(const std::string& d) { wd_viol("syscall_args", d); }
+// soak profile: the calls go to the real timer
+static bool g_soak = false;
+typedef int (*set_fn)(int, const struct itimerval*, struct itimerval*);
+typedef int (*get_fn)(int, struct itimerval*);
+static set_fn real_setitimer() { static set_fn f = (set_fn) dlsym(RTLD_NEXT, "setitimer"); return f; }
+static get_fn real_getitimer() { static get_fn f = (get_fn) dlsym(RTLD_NEXT, "getitimer"); return f; }
 extern "C" int setitimer(int which, const struct itimerval* nv, struct itimerval* ov) {
+  if (g_soak) return real_setitimer()(which, nv, ov);
   boundary("setitimer", ":entry");
   ++R.nset;
   if (R.active) {
@@ -219,6 +239,7 @@ extern "C" int setitimer(int which, const struct itimerval* nv, struct itimerval
   return 0;
 }
 extern "C" int getitimer(int which, struct itimerval* cv) {
+  if (g_soak) return real_getitimer()(which, cv);
   boundary("getitimer", ":entry");
   ++R.nget;
   if (R.active) { hx::checked(); if (which != ITIMER_PROF) bad_args("getitimer which=" + S(which)); }
@@ -253,7 +274,11 @@ static void wd_quiescent() {
   wd_poll_flags();
   hx::checked();
   std::string why; const char* c = R.M.late(R.now, why);
-  if (*c) { wd_viol(c, why); return; }
+  if (*c) {
+    bool confirmed = false;
+    for (int j = 0; j < MAXW; ++j) if (R.M.pending(j) && R.since_exit[j] >= R.M.w[j].delay + R.M.allow()) confirmed = true;
+    wd_viol(confirmed ? c : "harness_bug.late_witness", why); return;
+  }
   wd_list_check();
 }
 
@@ -336,6 +361,19 @@ static void wd_force_clean() {
   if (dirty) hx::count("wd.forced_reset");
   unblock_sigprof();
 }
+// The recycling list of Pending_Elements survives from run to run: put it into a state that is
+// a function of the history alone (empty, or at least MAXW spare elements), so that every run of
+// a case — and a replay of the case alone — takes the same allocation path in Pending_List::insert.
+static void nop_fn() {}
+static void wd_normalise_free_list(bool warm) {
+  WDEL& fl = wd_free_list(); int guard = 0;
+  while (!fl.empty() && guard++ < 1000) delete &*fl.begin();
+  if (warm) {
+    Watchdog* t[MAXW];
+    for (int i = 0; i < MAXW; ++i) t[i] = new Watchdog(100 + i, nop_fn);
+    for (int i = 0; i < MAXW; ++i) delete t[i];
+  }
+}
 
 static std::string distinct_create_class(int i, ll d) {
   // relation of the new deadline with the pending ones (what new_watchdog_event branches on)
@@ -351,14 +389,15 @@ static std::string distinct_destroy_class(int i) {
 }
 
 // One execution of a history with at most one in-bookkeeping placement.
-static void run_wd(const std::vector<Step>& h, int place, int mode, bool record) {
+static void run_wd(const std::vector<Step>& h, bool warm, int place, int mode, bool record) {
   R.active = false;
   wd_force_clean();
+  wd_normalise_free_list(warm);
   R.record = record; R.place = place; R.mode = mode; R.nb = 0; R.brecs.clear(); R.place_id.clear(); R.place_done = false; R.place_armed = false; R.place_npend = 0;
   R.elapse_arg = place < 0 ? 0 : place / 2 + place;
   R.ctx = "idle"; R.delivering = 0; R.now = 0; R.armed_until = -1; R.interval = 0; R.nset = R.nget = R.nsig = R.nfired = 0;
   R.vkey.clear(); R.vdetail.clear(); R.list_suspect = false; R.log.clear();
-  for (int i = 0; i < MAXW; ++i) { R.wd[i] = 0; R.flagkind[i] = false; wd_holder[i] = 0; wd_flag[i].id = i; }
+  for (int i = 0; i < MAXW; ++i) { R.wd[i] = 0; R.flagkind[i] = false; wd_holder[i] = 0; wd_flag[i].id = i; R.since_enter[i] = R.since_exit[i] = 0; R.run_enter[i] = R.run_exit[i] = false; }
   R.M.reset();
   R.active = true;
   for (size_t s = 0; s < h.size() && R.vkey.empty(); ++s) {
@@ -369,9 +408,9 @@ static void run_wd(const std::vector<Step>& h, int place, int mode, bool record)
         hx::count("op.wd.create"); if (place < 0) hx::distinct("wd.create|" + distinct_create_class(i, t.arg));
         ev(std::string(t.flag ? "CF" : "C") + S(i) + "(" + S(t.arg) + "cs)");
         m.state = 1; m.t_enter = R.now; m.delay = t.arg * CS_US; m.t_exit = R.now; R.flagkind[i] = t.flag;
-        R.ctx = "ctor";
+        R.ctx = "ctor"; R.run_enter[i] = true;
         R.wd[i] = t.flag ? new Watchdog(t.arg, wd_holder[i], wd_flag[i]) : new Watchdog(t.arg, wd_fns[i]);
-        R.ctx = "idle";
+        R.ctx = "idle"; R.run_exit[i] = true;
         m.t_exit = R.now; m.state = 2;
       }
       else if (t.op == 1) {
@@ -419,7 +458,8 @@ static void run_wd(const std::vector<Step>& h, int place, int mode, bool record)
 
 static void run_wd_case() {
   std::vector<Step> h = gen_wd_history();
-  std::string hs = show(h);
+  bool warm = hx::coin(70);
+  std::string hs = show(h) + (warm ? "[spare elements] " : "[no spare elements] ");
   hx::tr("wd: " + hs);
   hx::count("wd.histories");
   long only_place = hx::opt().geti("place", -2), only_mode = hx::opt().geti("mode", 1);
@@ -437,12 +477,12 @@ static void run_wd_case() {
     }
   };
   if (only_place >= -1) {   // replay of a single placement
-    run_wd(h, -1, 1, true);
-    if (only_place >= 0) run_wd(h, (int) only_place, (int) only_mode, false);
+    run_wd(h, warm, -1, 1, true);
+    if (only_place >= 0) run_wd(h, warm, (int) only_place, (int) only_mode, false);
     finish_run((int) only_place, (int) only_mode);
     return;
   }
-  run_wd(h, -1, 1, true);
+  run_wd(h, warm, -1, 1, true);
   std::vector<BRec> B = R.brecs;
   hx::count("wd.signals_plain", R.nsig); hx::count("wd.fired_plain", R.nfired);
   finish_run(-1, 1);
@@ -453,7 +493,7 @@ static void run_wd_case() {
   for (int p = 0; p < (int) B.size() && p < cap; ++p)
     for (int mode = 0; mode < nmodes; ++mode) {
       if (mode >= 1 && !B[p].armed) { hx::count("wd.placements_skipped_not_armed"); continue; }
-      run_wd(h, p, mode, false);
+      run_wd(h, warm, p, mode, false);
       if (!R.place_done) { hx::violation("harness.bug.placement_not_reached", "placement " + S(p) + " of " + S((long) B.size())); return; }
       if (R.place_id != B[p].id) { hx::violation("harness.bug.placement_diverged", R.place_id + " vs " + B[p].id); return; }
       hx::count(mode == 0 ? "wd.placements_elapse" : "wd.placements_deliver");
@@ -470,12 +510,12 @@ static void run_wd_case() {
 struct WW { WWatcher* w; int state; ull T; int fired; int kind; };   // state 0 none 2 alive 4 destroyed; kind 0 function 1 private flag holder 2 abandon_expensive_computations
 struct WwRun {
   WW w[MAXW]; int in_check; unsigned long nchecks; std::vector<int> firelog;
-  std::string vkey, vdetail, log; bool in_op; bool list_suspect;
+  std::string vkey, vdetail, log; bool in_op; bool list_suspect; std::set<std::string> soft;
 };
 static WwRun W;
 static const Throwable* volatile ww_holder[MAXW];
 static WFlag ww_flag[MAXW];
-static std::vector<WWatcher*> ww_graveyard;
+static std::vector<WWatcher*>& ww_graveyard = *new std::vector<WWatcher*>;
 static void (*ww_real_check)() = 0;
 
 static void wev(const std::string& s) { W.log += s; W.log += ' '; if (hx::opt().verbose) { fprintf(stderr, "   [w=%llu] %s\n", (ull) Weightwatch_Traits::weight, s.c_str()); fflush(stderr); } }
@@ -517,8 +557,16 @@ static void ww_verify(ull w, const std::vector<int>& exp, size_t mark, const cha
   for (size_t k = 0; k < exp.size(); ++k)
     if (std::find(got.begin(), got.end(), exp[k]) == got.end()) {
       bool eq = W.w[exp[k]].T == w;
-      ww_viol(std::string("no_trigger") + (eq ? ":weight-equals-threshold" : ""), "watcher " + S(exp[k]) + " threshold " + SU(W.w[exp[k]].T) + " did not trigger at the " + where + " check with weight " + SU(w));
-      return;
+      std::string d = "watcher " + S(exp[k]) + " threshold " + SU(W.w[exp[k]].T) + " did not trigger at the " + where + " check with weight " + SU(w);
+      if (!eq) { ww_viol("no_trigger", d); return; }
+      // weight == threshold: reported once per case; the run goes on (the watcher stays pending in
+      // the shadow queue and must trigger at the first check with a larger weight)
+      hx::count("ww.equal_weight_not_triggered");
+      if (W.soft.insert("no_trigger:weight-equals-threshold").second) {
+        std::string keep = hx::trace(); hx::trace() = keep + "| events: " + W.log;
+        hx::violation("C19.ww.no_trigger:weight-equals-threshold", d);
+        hx::trace() = keep;
+      }
     }
   for (size_t k = 1; k < got.size(); ++k)
     if (w - W.w[got[k - 1]].T < w - W.w[got[k]].T) { ww_viol("order", "watcher " + S(got[k - 1]) + " (threshold " + SU(W.w[got[k - 1]].T) + ") triggered before watcher " + S(got[k]) + " (threshold " + SU(W.w[got[k]].T) + ")"); return; }
@@ -634,6 +682,7 @@ static std::string show(const std::vector<WStep>& h, ull base) {
     else if (t.op == 1) s += "D" + S(t.slot) + " ";
     else if (t.op == 2) s += "W+" + SU(t.arg) + " ";
     else if (t.op == 3) s += "K ";
+    else if (t.op == 5) s += std::string("W->T") + (t.kind < 0 ? "-1 " : t.kind > 0 ? "+1 " : " ");
     else s += std::string(t.kind == 0 ? "OPconv" : "OPmip") + "(" + SU(t.arg) + ") ";
   }
   return s;
@@ -658,6 +707,7 @@ static void run_ww_case() {
       st[s.slot] = 1;
     }
     else if (k < 43 && !al.empty()) { s.op = 1; s.slot = al[rnd(0, (int) al.size() - 1)]; st[s.slot] = 2; }
+    else if (k < 52) { s.op = 5; s.kind = rnd(-1, 1); }
     else if (k < 65) { s.op = 2; int c = rnd(0, 5); s.arg = c == 0 ? 0 : c == 1 ? 1 : c <= 3 ? (ull) rnd(1, 12) : (ull) rnd(1, big ? 3000 : 50); }
     else if (k < 85) s.op = 3;
     else { s.op = 4; s.kind = rnd(0, 1); s.arg = (ull) (hx::rng()() & 0xffffff); }
@@ -674,7 +724,7 @@ static void run_ww_case() {
 
   // ---- execution ----
   for (int i = 0; i < MAXW; ++i) { W.w[i].w = 0; W.w[i].state = 0; W.w[i].T = 0; W.w[i].fired = 0; W.w[i].kind = 0; ww_holder[i] = 0; ww_flag[i].id = i; }
-  W.in_check = 0; W.nchecks = 0; W.firelog.clear(); W.vkey.clear(); W.vdetail.clear(); W.log.clear(); W.in_op = false; W.list_suspect = false;
+  W.in_check = 0; W.nchecks = 0; W.firelog.clear(); W.vkey.clear(); W.vdetail.clear(); W.log.clear(); W.in_op = false; W.list_suspect = false; W.soft.clear();
   abandon_expensive_computations = 0;
   { WWPL& pl = ww_pending(); int g = 0; bool dirty = false; while (!pl.empty() && g++ < 64) { pl.erase(pl.begin()); dirty = true; } if (dirty) { Weightwatch_Traits::check_function = 0; hx::count("ww.forced_reset"); } }
   Weightwatch_Traits::weight = base;
@@ -698,6 +748,11 @@ static void run_ww_case() {
       }
       else if (t.op == 2) { hx::count("op.ww.add"); wev("W+" + SU(t.arg)); Weightwatch_Traits::weight += t.arg; }
       else if (t.op == 3) { hx::count("op.ww.check"); wev("K"); ww_direct_check(); }
+      else if (t.op == 5) {   // move the weight to (just below / exactly / just above) the nearest pending threshold
+        ull w = Weightwatch_Traits::weight, best = 0; bool have = false;
+        for (int i = 0; i < MAXW; ++i) if (ww_pending_m(i) && !ww_reached(w, W.w[i].T) && (!have || W.w[i].T - w < best)) { best = W.w[i].T - w; have = true; }
+        if (have && best < (1ULL << 40)) { ull d = best + (ull) (ll) t.kind; if (best == 0 && t.kind < 0) d = 0; hx::count("op.ww.add_to_threshold"); wev("W+" + SU(d)); Weightwatch_Traits::weight += d; }
+      }
       else { wev("OP"); ull w0 = Weightwatch_Traits::weight; ww_ppl_op(t.kind, (unsigned) t.arg); pplx::note_weight(t.kind == 0 ? "ww.conversion" : "ww.mip", Weightwatch_Traits::weight - w0); }
     }
     catch (const std::exception& e) {
@@ -722,8 +777,48 @@ static void run_ww_case() {
 }
 
 // =====================================================================================
+//   soak profile (thorough tier): the real ITIMER_PROF, asynchronous delivery, busy loops.
+//   Verdicts: handler ran twice / after its destructor returned (and whatever the
+//   sanitizers say).  Timing is never a verdict.  Handlers only touch sig_atomic_t.
+// =====================================================================================
+static volatile sig_atomic_t soak_fired[MAXW], soak_dead[MAXW], soak_after[MAXW];
+template <int I> static void soak_fn() { ++soak_fired[I]; if (soak_dead[I]) ++soak_after[I]; }
+static void (*const soak_fns[MAXW])() = { soak_fn<0>, soak_fn<1>, soak_fn<2>, soak_fn<3>, soak_fn<4>, soak_fn<5>, soak_fn<6>, soak_fn<7> };
+static volatile unsigned long soak_sink;
+static void burn(long cpu_us) {   // consume process CPU time (what ITIMER_PROF measures)
+  clock_t c0 = clock(); long guard = 0;
+  while ((long) ((clock() - c0) * (1000000.0 / CLOCKS_PER_SEC)) < cpu_us && guard++ < 200000000L) for (int k = 0; k < 2000; ++k) soak_sink += k * k;
+}
+static void run_soak_case() {
+  using hx::rnd; using hx::coin;
+  g_soak = true; wd_normalise_free_list(coin());
+  int n = rnd(2, 6); Watchdog* w[MAXW]; int order[MAXW];
+  for (int i = 0; i < MAXW; ++i) { soak_fired[i] = 0; soak_dead[i] = 0; soak_after[i] = 0; w[i] = 0; order[i] = i; }
+  std::string t = "soak:";
+  for (int i = 0; i < n; ++i) {
+    int d = coin(30) ? 1 : rnd(1, 6); t += " C" + S(i) + "(" + S(d) + "cs)";
+    w[i] = new Watchdog(d, soak_fns[i]); hx::count("op.soak.create");
+    if (coin(40)) { int b = rnd(0, 30000); t += " burn" + S(b); burn(b); }
+    if (coin(15) && i > 0) { int j = rnd(0, i - 1); if (w[j]) { t += " D" + S(j); delete w[j]; w[j] = 0; soak_dead[j] = 1; hx::count("op.soak.destroy"); } }
+  }
+  hx::tr(t);
+  if (coin(70)) burn(rnd(0, 80000));
+  std::shuffle(order, order + n, hx::rng().g);
+  for (int k = 0; k < n; ++k) { int i = order[k]; if (w[i]) { delete w[i]; w[i] = 0; soak_dead[i] = 1; hx::count("op.soak.destroy"); if (coin(30)) burn(rnd(0, 15000)); } }
+  burn(20000);    // anything still armed would fire here, after every destructor returned
+  g_soak = false;
+  for (int i = 0; i < n; ++i) {
+    hx::checked(2); hx::count("soak.fired", soak_fired[i]);
+    if (soak_fired[i] > 1) { hx::violation("C19.wd.twice:real-timer", "handler " + S(i) + " ran " + S(soak_fired[i]) + " times"); return; }
+    if (soak_after[i] > 0) { hx::violation("C19.wd.after_destruction:real-timer", "handler " + S(i) + " ran after its destructor returned"); return; }
+  }
+  hx::checked(); if (!wd_pending().empty()) hx::violation("C19.wd.list.stale_element:real-timer", "active list not empty after every watchdog was destroyed");
+}
+
+// =====================================================================================
 static void run_case(uint64_t) {
   const std::string& p = hx::opt().profile;
+  if (p == "soak") { run_soak_case(); return; }
   bool wd = p == "wd" ? true : p == "ww" ? false : hx::coin(70);
   if (wd) run_wd_case(); else run_ww_case();
 }
